@@ -4991,10 +4991,12 @@ class State:
 
         self.opener_index = player_index
 
-        if (
-                completion_betting_or_raising_amount
-                >= self.completion_betting_or_raising_amount
-        ):
+        full_status = (
+            completion_betting_or_raising_amount
+            >= self.completion_betting_or_raising_amount
+        )
+
+        if full_status:
             self.acted_player_indices.clear()
             self.acted_player_indices.add(player_index)
 
@@ -5004,7 +5006,7 @@ class State:
         )
         self.completion_betting_or_raising_count += 1
 
-        if self.stacks[player_index]:
+        if self.stacks[player_index] or full_status:
             (
                 self
                 .consecutive_all_in_completion_betting_or_raising_amounts
